@@ -722,6 +722,28 @@ def r9_merged_index_state(ctx):
     r9_deleted_filter_scope(ctx, rule_id='R-C03.10')
 
 
+def _is_queued_rename(fn, expr, depth=3) -> bool:
+    """expr denotes an element of a rename record's 'mutations' list
+    (`info['mutations'][0]`, directly or through locals of any name)."""
+    if depth < 0:
+        return False
+    if isinstance(expr, ast.Subscript):
+        if "['mutations']" in unparse(expr.value):
+            return True
+        return _is_queued_rename(fn, expr.value, depth - 1) \
+            if isinstance(expr.value, ast.Name) else False
+    if isinstance(expr, ast.Name):
+        for n in walk_no_nested(fn.node):
+            if isinstance(n, ast.Assign) and len(n.targets) == 1 and \
+                    isinstance(n.targets[0], ast.Name) and \
+                    n.targets[0].id == expr.id:
+                if isinstance(n.value, ast.Subscript) and (
+                        "['mutations']" in unparse(n.value) or
+                        _is_queued_rename(fn, n.value, depth - 1)):
+                    return True
+    return False
+
+
 def r11_fold_copies_target_state(ctx, rule_id='R-C03.11'):
     """When the optimiser folds a chain of renames into the first one it
     copies the *target* of the last rename into it.  The target of a
@@ -763,7 +785,7 @@ def r11_fold_copies_target_state(ctx, rule_id='R-C03.11'):
                     isinstance(t.value, ast.Name) and
                     isinstance(v, ast.Attribute) and v.attr == t.attr and
                     t.attr.startswith(('new_', 'db_')) and
-                    'rename_mutation' in unparse(v.value)):
+                    _is_queued_rename(fn, v.value)):
                 continue
             # innermost isinstance(<target var>, <Class>) branch
             cur, cname = n, None
